@@ -523,14 +523,27 @@ async fn gen_action<S: StateRead>(
             if cands.len() <= 4 && !hostile {
                 return None; // keep some plain users
             }
-            let from = signer_hint.unwrap_or_else(|| *cands.choose(rng).unwrap_or(&0));
+            let mut intent = "init_bridge".to_string();
+            let mut from = signer_hint.unwrap_or_else(|| *cands.choose(rng).unwrap_or(&0));
+            let mut disabled = vec![];
+            for b in &bridge_list {
+                if state.is_bridge_account_disabled(&u.accts[*b].addr).await.unwrap_or(false) {
+                    disabled.push(*b);
+                }
+            }
+            if signer_hint.is_none() && !bridge_list.is_empty() && ((hostile && rng.gen_bool(0.6)) || (!disabled.is_empty() && rng.gen_bool(0.5))) {
+                // an account that already is a bridge (preferably one whose deposits its sudo has disabled) signs a second
+                // InitBridgeAccount with its own key: that would replace sudo / withdrawer / deposit switch without the bridge sudo
+                from = *disabled.choose(rng).or_else(|| bridge_list.choose(rng)).unwrap();
+                intent = format!("init_bridge:attack_reinit_existing_bridge{}", if disabled.contains(&from) { "_disabled" } else { "" });
+            }
             let asset = u.assets[[0usize, 1, 4, 3][rng.gen_range(0..4)]].clone();
             let sudo = if rng.gen_bool(0.7) { Some(u.accts[any_user(rng)].address()) } else { None };
             let withdrawer = if rng.gen_bool(0.7) { Some(u.accts[any_user(rng)].address()) } else { None };
             let fee_asset = pick_fee_asset(u, rng, state, false).await;
             Some((from, Action::InitBridgeAccount(InitBridgeAccount {
                 rollup_id: RollupId::new([rng.gen_range(1..=4u8); 32]), asset, fee_asset, sudo_address: sudo, withdrawer_address: withdrawer,
-            }), "init_bridge".into()))
+            }), intent))
         }
         "bridge_lock" => {
             let b = *bridge_list.choose(rng)?;
@@ -614,7 +627,7 @@ async fn gen_action<S: StateRead>(
                 new_sudo_address: if rng.gen_bool(0.5) { Some(u.accts[any_user(rng)].address()) } else { None },
                 new_withdrawer_address: if rng.gen_bool(0.5) { Some(u.accts[any_user(rng)].address()) } else { None },
                 fee_asset,
-                disable_deposits: rng.gen_bool(0.3),
+                disable_deposits: rng.gen_bool(0.45),
             }), intent))
         }
         "fee_change" | "fee_asset_change" | "sudo_change" | "validator_update" => {
